@@ -93,6 +93,13 @@ def search(chk, broken):
         rng.shuffle(perm)
         if [key(r) for r in fire(perm)] != [key(r) for r in base]:
             chk.failures.append(Failure('order', 'permuting the wind list changes the trajectory', {'op': 'wind-order', 'untils_ft': untils}))
+        # 1b. how the wind quantities are DISPLAYED does not matter: the same wind objects after their until-distances, speeds and
+        #     directions were shown in other units (`q << unit` re-labels in place, magnitudes untouched) give the same rows
+        sg.scramble_units(pbc, rng, *ws)
+        if [key(r) for r in fire(ws)] != [key(r) for r in base]:
+            chk.failures.append(Failure('display-units-of-winds', 'the trajectory changes after the quantities of the wind segments were displayed in other units '
+                                                                  f'(until-distances now shown as {[str(w.until_distance) for w in ws]})',
+                                        {'op': 'wind-display', 'untils_ft': untils, 'shown_as': [str(w.until_distance) for w in ws]}))
         # 2. zero-speed winds / empty list are no wind
         a, b, c = fire([]), fire([pbc.Wind()]), fire([pbc.Wind(U.MPH(0), U.Degree(rng.uniform(0, 360)), U.Foot(float(u))) for u in untils])
         if not ([key(r) for r in a] == [key(r) for r in b] == [key(r) for r in c]):
